@@ -20,6 +20,7 @@ LEVEL_TEXT = (
     "lattice for up to 3 inputs (thorough; quick: 2 inputs plus a slice of 3) and on generated arrays of arbitrary "
     "fuzzy doubles for up to 5 inputs; the algebraic laws are checked over all input permutations. Exhaustive for "
     "the lattice slices, sampled beyond."
+    ' Generated inputs include crisp layers with integer element types for the selecting operators, and a whole-model part runs fuzzy-logic operators over shared inputs through Program.run.'
 )
 LEVEL_NOTE = "Trusts numpy and the reference functions in vcheck/ref; inputs restricted to the operators' declared fuzzy domain."
 RULE = (
